@@ -670,6 +670,25 @@ impl Scenario for Sched {
         if rng.chance(1, 3) {
             parts.extend(s(&["-E", &rng.range(1, 255).to_string()]));
         }
+        // 1 in 5 of the checks: a custom checks file (expectations about the whole run, OB chip rules, a pinned
+        // header version) - its messages come from the statistics side at the end of the run and from the validators
+        let mut checks_toml = None;
+        if !view && rng.chance(1, 5) {
+            let t = random_checks_toml(&mut rng);
+            if !t.is_empty() {
+                parts.extend(s(&["-c", "@CHECKS@"]));
+                checks_toml = Some(t);
+                label.push_str(" +custom checks");
+            }
+        }
+        // 1 in 8: only some error codes are displayed
+        if !view && rng.chance(1, 8) {
+            parts.push("-w".into());
+            for c in rng.pick(&["10 11", "70 71 72 73 74 75", "30 40 50 60 99", "9001 9002 9004 9005", "4 44 9"]).split_whitespace() {
+                parts.push(c.into());
+            }
+            label.push_str(" -w");
+        }
         if filter == Filter::None && rng.chance(1, 6) {
             // an output destination next to the check / view (with the filter it requires): accepted with
             // a warning and ignored - in particular no second consumer of the reader's batches
@@ -687,6 +706,7 @@ impl Scenario for Sched {
         let im = pick_input_mode(&mut rng);
         let mut base = specgen::spec(im, &parts, input);
         base.stats_ext = stats_ext;
+        base.custom_checks_toml = checks_toml;
         let nvar = match tier {
             Tier::Quick => 8,
             Tier::Thorough => 24,
